@@ -52,12 +52,12 @@ def make_packages(ctx):
         ("map", {"n": 3, "p_new": 0.5}),
         ("map", {"n": 4, "p_new": 0.0}),
         ("map", {"n": 2, "p_new": 0.5}),
-        ("enum", None), ("rest", None),
+        ("enum", None), ("rest", {"headers": None}), ("rest", None),
     ]
     pks += detgen.hand_new_pkgs() + detgen.hand_map_pkgs(rng)
     for cmd, force in shaped:
         pks.append(detgen.GENS[cmd](rng, force))
-    n = ctx.n(60, 800) - len(pks)
+    n = ctx.n(60, 360) - len(pks)
     for _ in range(max(0, n)):
         r = rng.random()
         cmd = "new" if r < 0.55 else "map" if r < 0.8 else "enum" if r < 0.9 else "rest"
